@@ -26,10 +26,10 @@ func init() {
 		id:  "C12",
 		run: runC12,
 		explanation: "Decided (structural, for every dataset, query and option combination): " +
-			"C12.width — the single total-count row is built only under a test that the group-by list is empty (a function of the result alone cannot distinguish 'group-by, nothing matched' from 'no group-by'); " +
+			"C12.width — the single total-count row is built only under a test that the group-by list is empty (a function of the result alone cannot distinguish 'group-by, nothing matched' from 'no group-by'); where the total count is handed to a row-building helper, the call is the construction site that must be so conditioned; " +
 			"C12.errflow — errors of ParseQuery, of the protobuf-to-query conversion, of Index.Execute and of the RPC propagate out of Prepare/Query (tested against nil, no success return and no retry on the failing branch); " +
 			"C12.cols — the column list is the group-by list followed by the constant \"count\"; the column-type methods split at len(cols)-1 with TEXT before and BIGINT at it; Next writes the count at index len(fields) and the fields at their own indices. " +
-			"For rows stored as []driver.Value the same invariants are decided where the rows are built (every row placed into the row list is the group's values, appended in field-list order, followed by that group's count converted to int64, or the total count alone) and Next must copy element i of the stored row to index i. " +
+			"For rows stored as []driver.Value the same invariants are decided where the rows are built (every row placed into the row list is the group's values, appended in field-list order, followed by that group's count converted to int64, or the total count alone; a helper that builds the row is judged with its parameters bound to the arguments of the placing call: the group, or its field list — or a list of strings collected from it in order — and its count; an empty list and the total count) and Next must copy element i of the stored row to index i. " +
 			"C12.rowsfresh — the row list (and, for slice rows, every row in it) is storage created for this result. " +
 			"C12.bindall, C12.stmtquery — as C11.bindall and C11.stmtquery: the rows returned are those of the query text given, with every occurrence of a placeholder bound. " +
 			"C12.bind — the query executed is the deep copy of the statement's template with the arguments written into the copy only, and nothing else modifies parsed queries (so repeated executions of a prepared statement see their own arguments); C12.cacheowner — a cache requested in the DSN is created for the one index being opened. " +
@@ -429,24 +429,53 @@ func c12Width(c *Ctx) {
 		return
 	}
 	countFld := structFieldNamed(c.w.namedType(pkgRoot, "Result"), "Count")
-	n := 0
-	allInstrs(fn, func(i ssa.Instruction) {
-		st, ok := i.(*ssa.Store)
-		if !ok {
-			return
-		}
-		// a store whose value is result.Count: this builds the total-count row (the count may be converted and, when
-		// rows are stored as []driver.Value, boxed into the interface right here)
-		val := st.Val
+	// isTotal: val is result.Count (possibly converted and, when rows are stored as []driver.Value, boxed into the interface)
+	isTotal := func(val ssa.Value) bool {
 		if mi, isMI := val.(*ssa.MakeInterface); isMI {
 			val = mi.X
 		}
 		ld, ok := peelConv(val).(*ssa.UnOp)
 		if !ok || ld.Op != token.MUL {
-			return
+			return false
 		}
 		p := path(ld.X)
-		if p.lastField() != countFld || spilledParam(p.Root) != result {
+		return p.lastField() == countFld && spilledParam(p.Root) == result
+	}
+	// the type of one stored row (element type of the rows type's row list)
+	var rowType types.Type
+	if c.a.RowsT != nil {
+		if storage, kind := rowsStorage(c.a.RowsT); kind != rowsNone {
+			rowType = storage.Type().Underlying().(*types.Slice).Elem()
+		}
+	}
+	n := 0
+	allInstrs(fn, func(i ssa.Instruction) {
+		// the total-count row is built where result.Count is stored (into the row literal), or where it is handed to a
+		// helper of the module that returns a row and puts this argument into it (newRow(nil, result.Count)): the
+		// call is then the construction site, and it is the call that must be conditioned
+		var st ssa.Instruction
+		switch x := i.(type) {
+		case *ssa.Store:
+			if !isTotal(x.Val) {
+				return
+			}
+			st = x
+		case *ssa.Call:
+			callee := calleeFunc(&x.Call)
+			if callee == nil || !c.w.inModule(callee) || callee.Blocks == nil || !returnsType(callee, rowType) {
+				return
+			}
+			found := false
+			for k, a := range x.Call.Args {
+				if isTotal(a) && k < len(callee.Params) && c.paramStored(callee.Params[k], 2) {
+					found = true
+				}
+			}
+			if !found {
+				return
+			}
+			st = x
+		default:
 			return
 		}
 		n++
@@ -474,6 +503,48 @@ func c12Width(c *Ctx) {
 	if n == 0 {
 		c.r.bad(rule, safeFname(fn), "no row carrying the result's total count is ever built: a query without group-by returns no row", []string{c.w.pos(fn.Pos())})
 	}
+}
+
+// returnsType: one of fn's results has type t.
+func returnsType(fn *ssa.Function, t types.Type) bool {
+	if t == nil {
+		return false
+	}
+	res := fn.Signature.Results()
+	for k := 0; k < res.Len(); k++ {
+		if types.Identical(res.At(k).Type(), t) {
+			return true
+		}
+	}
+	return false
+}
+
+// paramStored: the value v (a parameter of a row-building helper) is stored somewhere by the helper — converted and
+// boxed or not, directly or by a further helper of the module it is handed on to: it becomes part of what is built.
+func (c *Ctx) paramStored(v ssa.Value, depth int) bool {
+	for _, r := range referrers(v) {
+		switch x := r.(type) {
+		case *ssa.Convert, *ssa.ChangeType, *ssa.MakeInterface:
+			if c.paramStored(x.(ssa.Value), depth) {
+				return true
+			}
+		case *ssa.Store:
+			if x.Val == v {
+				return true
+			}
+		case *ssa.Call:
+			g := calleeFunc(&x.Call)
+			if g == nil || !c.w.inModule(g) || g.Blocks == nil || depth <= 0 {
+				continue
+			}
+			for k, a := range x.Call.Args {
+				if a == v && k < len(g.Params) && c.paramStored(g.Params[k], depth-1) {
+					return true
+				}
+			}
+		}
+	}
+	return false
 }
 
 func c12Errflow(c *Ctx) {
